@@ -156,7 +156,7 @@ def _guarded_edge(P, R):
 
 def _two_records(P, R):
     # writers
-    for fn in sorted(P.fns.values(), key=lambda f: f.name):
+    for fn in sorted(P.views(lambda f: f.file == "src/engine/module.rs"), key=lambda f: f.name):
         if fn.impl_self not in (MM, MOD):
             continue
         rem_mod = [c for (c, s) in A.calls_with_receiver_field(fn, "modules", MM) if c.name.endswith(("HashMap::remove", "HashMap::clear", "HashMap::retain", "HashMap::drain"))]
@@ -194,7 +194,7 @@ def _two_records(P, R):
             else:
                 R.violate("b", "unpaired-edge-write:%s" % fn.short_name, "%s writes %d graph edges and %d declarations" % (fn.short_name, len(gi), len(ai)), fn)
     # Module.imports writers
-    for fn in sorted(P.fns.values(), key=lambda f: f.name):
+    for fn in sorted(P.views(lambda f: f.file == "src/engine/module.rs"), key=lambda f: f.name):
         for (c, s) in A.calls_with_receiver_field(fn, "imports", MOD):
             if c.name.endswith(("Vec::push", "Vec::insert", "Vec::extend", "Vec::append")) and not (fn.name == MOD + "::add_import"):
                 R.violate("b", "imports-writer:%s" % fn.name, "%s adds an import declaration without going through the cycle-checked path" % fn.name, fn, c.line)
